@@ -139,10 +139,12 @@ func (ex *Exec) postDominators(fn *ssa.Function) *pdomInfo {
 	return info
 }
 
-// mergeJoin returns the join block of the If ending b: the nearest block (breadth-first from b)
-// reachable from both successors without passing through b. Arms that leave the function or loop
-// back to b at run time abort the attempt, so blocks ending in return/panic inside the region do
-// not disqualify it (error exits inside loop bodies are common).
+// mergeJoin returns the join block of the If ending b: the nearest block J (breadth-first from
+// b) that is reachable from both successors without passing through b, such that no block an arm
+// can execute before J dominates J (an arm that went around an enclosing loop would redefine
+// values that are live at J without a phi there). Arms that leave the function, come back to b
+// or exceed the unwinding bound at run time abort the attempt, so error exits inside the region
+// do not disqualify it.
 func (ex *Exec) mergeJoin(fr *frame, b *ssa.BasicBlock) *ssa.BasicBlock {
 	if ex.cfg.NoMerge || ex.cfg.Inputs != nil {
 		return nil
@@ -158,9 +160,9 @@ func (ex *Exec) mergeJoin(fr *frame, b *ssa.BasicBlock) *ssa.BasicBlock {
 	if len(b.Succs) != 2 {
 		return nil
 	}
-	reach := func(start *ssa.BasicBlock) map[*ssa.BasicBlock]bool {
+	reach := func(start, stopAt *ssa.BasicBlock) map[*ssa.BasicBlock]bool {
 		seen := map[*ssa.BasicBlock]bool{}
-		if start == b {
+		if start == b || start == stopAt {
 			return seen
 		}
 		seen[start] = true
@@ -169,7 +171,7 @@ func (ex *Exec) mergeJoin(fr *frame, b *ssa.BasicBlock) *ssa.BasicBlock {
 			x := stack[len(stack)-1]
 			stack = stack[:len(stack)-1]
 			for _, s := range x.Succs {
-				if s != b && !seen[s] {
+				if s != b && s != stopAt && !seen[s] {
 					seen[s] = true
 					stack = append(stack, s)
 				}
@@ -177,54 +179,47 @@ func (ex *Exec) mergeJoin(fr *frame, b *ssa.BasicBlock) *ssa.BasicBlock {
 		}
 		return seen
 	}
-	rT, rF := reach(b.Succs[0]), reach(b.Succs[1])
-	// breadth-first from b
-	dist := map[*ssa.BasicBlock]int{b: 0}
+	rT, rF := reach(b.Succs[0], nil), reach(b.Succs[1], nil)
+	// candidates in breadth-first order from b
+	var cands []*ssa.BasicBlock
+	seen := map[*ssa.BasicBlock]bool{b: true}
 	queue := []*ssa.BasicBlock{b}
-	for len(queue) > 0 && j == nil {
+	for len(queue) > 0 && len(cands) < 6 {
 		x := queue[0]
 		queue = queue[1:]
 		for _, s := range x.Succs {
-			if _, ok := dist[s]; ok {
+			if seen[s] {
 				continue
 			}
-			dist[s] = dist[x] + 1
+			seen[s] = true
 			if rT[s] && rF[s] {
-				j = s
-				break
+				cands = append(cands, s)
 			}
 			queue = append(queue, s)
 		}
 	}
-	if j == nil {
-		return nil
-	}
-	// bounded region: blocks reachable from the arms before the join
-	size := 0
-	seen := map[*ssa.BasicBlock]bool{j: true, b: true}
-	stack := []*ssa.BasicBlock{}
-	for _, s := range b.Succs {
-		if !seen[s] {
-			seen[s] = true
-			stack = append(stack, s)
+	for _, c := range cands {
+		ra, rb := reach(b.Succs[0], c), reach(b.Succs[1], c)
+		if len(ra)+len(rb) > maxRegionSize {
+			continue
 		}
-	}
-	for len(stack) > 0 {
-		x := stack[len(stack)-1]
-		stack = stack[:len(stack)-1]
-		size++
-		if size > maxRegionSize {
-			j = nil
-			return nil
-		}
-		for _, s := range x.Succs {
-			if !seen[s] {
-				seen[s] = true
-				stack = append(stack, s)
+		ok := true
+		for x := range ra {
+			if x.Dominates(c) {
+				ok = false
 			}
 		}
+		for x := range rb {
+			if x.Dominates(c) {
+				ok = false
+			}
+		}
+		if ok {
+			j = c
+			return j
+		}
 	}
-	return j
+	return nil
 }
 
 // tryMerge executes both arms of the If ending block b under guards. On success the phi
@@ -256,6 +251,12 @@ func (ex *Exec) tryMerge(fr *frame, b *ssa.BasicBlock, c *smt.Term, j *ssa.Basic
 		// panic inside an arm aborts the attempt anyway. Only a syntactically decided condition
 		// is left to Branch.
 		if ex.pcKnows(c) != 0 {
+			return false
+		}
+		// Both arms must be feasible: inside an infeasible arm every branch looks one-sided and
+		// wrong decisions (and the obligations, panics and literal-cache entries they lead to)
+		// were observed to leak. One query (the model cache decides the other side).
+		if !ex.bothFeasible(c) {
 			return false
 		}
 	}
